@@ -1485,3 +1485,139 @@ func init() {
 			return obs
 		}})
 }
+
+// SNAPSHOT.no-reread — C03 ("no builtin answers with a host panic"): a builtin that
+// takes the cells of an argument sequence into a local and then runs USER code
+// (a predicate, a key function, a comparator) must keep working from that local.
+// The user code can shrink or grow the very sequence in place (elpspath:?del!,
+// append!); a length or cell slice read from the argument AGAIN afterwards no longer
+// fits indexes computed against the snapshot, and the reslice panics in the Go
+// runtime — an internal-panic that no catch-all handler contains.
+func init() {
+	register(&Rule{ID: "SNAPSHOT.no-reread", Floor: 1,
+		Doc: "in every registered builtin of the kernel that copies the cells of an argument into a local (`cells := seqCells(x)` / `x.Cells`) and afterwards calls something that can run user code (FunCall and the helpers that reach it, also inside a callback literal), no later expression reads the length or the cells of that same argument again (`x.Len()`, `len(x.Cells)`, `seqCells(x)`): sizes and indexes all come from the one snapshot, so a predicate that shrinks the sequence in place cannot make them disagree (found: insert-sorted sized its result from list.Len() after the binary search had run the predicate)",
+		Run: func(c *Ctx) []Obligation {
+			const rid = "SNAPSHOT.no-reread"
+			seqCellsFn := c.LookupPkgFunc("lisp.seqCells")
+			lenM := c.LookupMethod("lisp.LVal.Len")
+			cellsFld := c.LookupField("lisp.LVal.Cells")
+			funCall := c.LookupMethod("lisp.LEnv.FunCall")
+			if seqCellsFn == nil || lenM == nil || cellsFld == nil || funCall == nil {
+				return []Obligation{anchorMissing(rid, "seqCells / LVal.Len / LVal.Cells / LEnv.FunCall")}
+			}
+			// functions that can run user code: FunCall and whatever reaches it (static calls, depth 3)
+			runsUser := map[*types.Func]bool{funCall: true}
+			for _, n := range []string{"lisp.LEnv.funCall", "lisp.LEnv.FunCallContext", "lisp.LEnv.Eval", "lisp.LEnv.EvalContext", "lisp.LEnv.call"} {
+				if f := c.LookupMethod(n); f != nil {
+					runsUser[f] = true
+				}
+			}
+			for pass := 0; pass < 3; pass++ {
+				for _, u := range c.Funcs(isKernel) {
+					if u.Decl == nil || u.Decl.Body == nil || runsUser[u.Obj] {
+						continue
+					}
+					info := u.Pkg.TypesInfo
+					for _, ce := range callsIn(u.Decl.Body, true) {
+						if f := originOf(Callee(info, ce)); f != nil && runsUser[f] {
+							runsUser[u.Obj] = true
+							break
+						}
+					}
+				}
+			}
+			var obs []Obligation
+			seen := map[*types.Func]bool{}
+			for _, e := range c.Registry() {
+				body, u, _, ok := c.BodyOf(e)
+				if !ok || u.Decl == nil || seen[u.Obj] || !isKernel(u.Pkg.PkgPath) {
+					continue
+				}
+				seen[u.Obj] = true
+				info := u.Pkg.TypesInfo
+				// snapshots: local := seqCells(X) / X.Cells, X an identifier
+				type snap struct {
+					x   types.Object
+					pos token.Pos
+				}
+				var snaps []snap
+				ast.Inspect(body, func(n ast.Node) bool {
+					as, ok := n.(*ast.AssignStmt)
+					if !ok || len(as.Lhs) != len(as.Rhs) {
+						return true
+					}
+					for i, r := range as.Rhs {
+						if _, isId := as.Lhs[i].(*ast.Ident); !isId {
+							continue
+						}
+						r = ast.Unparen(r)
+						var x types.Object
+						if ce, ok := r.(*ast.CallExpr); ok && originOf(Callee(info, ce)) == seqCellsFn && len(ce.Args) == 1 {
+							x = identObj(info, ce.Args[0])
+						} else if se, ok := r.(*ast.SelectorExpr); ok && FieldOfSelector(info, se) == cellsFld {
+							x = identObj(info, se.X)
+						}
+						if x != nil {
+							snaps = append(snaps, snap{x, as.End()})
+						}
+					}
+					return true
+				})
+				if len(snaps) == 0 {
+					continue
+				}
+				ord := &ordinal{}
+				for _, sn := range snaps {
+					// first user-code call after the snapshot
+					var first token.Pos
+					for _, ce := range callsIn(body, true) {
+						if ce.Pos() < sn.pos {
+							continue
+						}
+						if f := originOf(Callee(info, ce)); f != nil && runsUser[f] {
+							if !first.IsValid() || ce.Pos() < first {
+								first = ce.Pos()
+							}
+						}
+					}
+					if !first.IsValid() {
+						continue
+					}
+					var reread ast.Node
+					ast.Inspect(body, func(n ast.Node) bool {
+						if reread != nil || n == nil || n.End() <= first {
+							return reread == nil
+						}
+						switch y := n.(type) {
+						case *ast.CallExpr:
+							if y.Pos() <= first {
+								return true
+							}
+							f := originOf(Callee(info, y))
+							if f == seqCellsFn && len(y.Args) == 1 && identObj(info, y.Args[0]) == sn.x {
+								reread = y
+							}
+							if f == lenM {
+								if se, ok := ast.Unparen(y.Fun).(*ast.SelectorExpr); ok && identObj(info, se.X) == sn.x {
+									reread = y
+								}
+							}
+							if id, ok := ast.Unparen(y.Fun).(*ast.Ident); ok && id.Name == "len" && len(y.Args) == 1 {
+								if se, ok := ast.Unparen(y.Args[0]).(*ast.SelectorExpr); ok && FieldOfSelector(info, se) == cellsFld && identObj(info, se.X) == sn.x {
+									reread = y
+								}
+							}
+						}
+						return true
+					})
+					construct := ord.next("snapshot of " + sn.x.Name() + " then user code")
+					if reread == nil {
+						obs = append(obs, mkOb(c, rid, u, construct, body, Proved, "after the user code ran, nothing reads the argument's length or cells again", true))
+					} else {
+						obs = append(obs, mkOb(c, rid, u, construct, reread, Violated, "`"+types.ExprString(reread.(ast.Expr))+"` reads the argument again after user code (a predicate / key function) has run: that code can shrink or grow the sequence in place, so this size no longer matches the indexes computed against the cells taken before — the reslice that follows panics in the Go runtime (internal-panic)", true))
+					}
+				}
+			}
+			return obs
+		}})
+}
